@@ -581,6 +581,8 @@ def protocol_rule(ctx):
     mx, mn = _UF["maximum"], _UF["minimum"]
     wantclip = XArray._binop(XArray._binop(XArray(An.shape, An.data), XArray(lo.shape, lo.data), mx), XArray(hi.shape, hi.data), mn)
     run("np.clip(field, a_min=field, a_max=field)", lambda: M.call_hook(_NpAttr("clip"), [An], {"a_min": lo, "a_max": hi}), wantclip, True, "kwarg-field:clip")
+    A3 = _mk("a", (3, 2, 3, 3))
+    run("np.einsum('epij->eij', field(3,2,3,3)) (sums the Gauss-point axis)", lambda: M.call_hook(_NpAttr("einsum"), ["epij->eij", A3], {}), xe("epij->eij", XArray(A3.shape, A3.data)), False, "einsum:drop-gauss-axis")
     run("np.einsum('epij,epij->e', field, field)", lambda: M.call_hook(_NpAttr("einsum"), ["epij,epij->e", A, B], {}), xe("epij,epij->e", XArray(A.shape, A.data), XArray(B.shape, B.data)), False, "einsum:drop")
 
     # ---- constructors: asfearray / broadcast decision table
@@ -611,7 +613,13 @@ def protocol_rule(ctx):
         ctor(f"broadcast({name} tensor{arr.shape}, Ne=nPg=3, tensor_ndim=2)", lambda arr=arr: M.static("broadcast", arr, Ne, nPg, tensor_ndim=2), (Ne, nPg) + Tn, f"bc:t2:{name}")
         # value check: the (e, p) entry is the input's (e), (e, p) or () entry
         r.instance()
-        got = M.static("broadcast", arr, Ne, nPg, tensor_ndim=2)
+        try:
+            got = M.static("broadcast", arr, Ne, nPg, tensor_ndim=2)
+        except XRaise:
+            got = None
+        if not isinstance(got, XArray) or got.shape != (Ne, nPg) + Tn:
+            r.fail(f"{LA}.FeArray", f"bc:value:{name}", anchor.file, anchor.lineno, "FeArray.broadcast", f"{name} tensor: not broadcast to (Ne, nPg) + tensor shape")
+            continue
         okv = True
         for e in range(Ne):
             for p in range(nPg):
